@@ -109,6 +109,12 @@ def addrOperand (a : Except String Address) (tail : Dec.Bytes) : Except String (
   | [] => throw "empty address"
   | m :: rest => pure (decodeRM (Address.rex_x a) (Address.rex_b a) (m.toNat / 64) (m.toNat % 8) (rest ++ tail))
 
+/-- `m (Address::offset(base, disp))` in a fresh assembler: the emitted bytes, decoded -/
+def viaOffset (avx : Bool) (m : Address → X64 Unit) (base : Register) (disp : Int32) :
+    Except String (Option (Instr × Dec.Bytes)) := do
+  let a ← Address.offset base disp
+  (enc avx (m a)).map decode
+
 /-- scale operand as the generated `ScaleFactor` -/
 def Sn (n : Nat) : ScaleFactor := ScaleFactor.all.getD n .One
 
